@@ -37,7 +37,12 @@ impl DiagnosticAction {
     }
 
     pub fn is_match(&self, is_disable: bool, range: &TextRange, code: &DiagnosticCode) -> bool {
-        if self.range.intersect(*range).is_none() {
+        let Some(overlap) = self.range.intersect(*range) else {
+            return false;
+        };
+        // a diagnostic that merely touches the scope (e.g. starts at column 0 of the line after
+        // the one covered by `disable-next-line`) is outside of it
+        if overlap.is_empty() && !range.is_empty() {
             return false;
         }
 
